@@ -20,6 +20,7 @@ RULE += ("; added after the mutation rounds: objects obtained through a partly f
 RULE += ("; round 5: objects restored from pickle / copy / deepcopy; look-alike words (nucleotide strings, reading frames)")
 RULE += ("; round 7: every composition of lengths 12-48 (thorough 72), one arrangement each")
 RULE += ("; round 8: handles whose public SeqObj attribute is pointed at another backend object after a query; objects built from files")
+RULE += ("; round 9: children of pair swaps of parents that have already answered (positions near the ends, either order); patterns written in the reduced charge alphabet behind a handle, and their shuffled copies")
 EXHAUSTIVE = {"quick": False, "thorough": False}
 EXHAUSTIVE_NOTE = {"quick": "charge patterns of length 1..11 enumerated completely (265,719)",
                    "thorough": "charge patterns of length 1..13 enumerated completely (2,391,483)"}
